@@ -13,6 +13,7 @@ import NemoVerif.Lemmas.GroupVM
 import NemoVerif.Lemmas.GroupExpandAwait
 import NemoVerif.Lemmas.GroupExpandWhen
 import NemoVerif.Lemmas.GroupFlowVM
+import NemoVerif.Lemmas.GroupCoreVMCompose
 namespace NemoVerif.C07
 open NemoVerif NemoVerif.Dnf NemoVerif.GroupExpand NemoVerif.GroupVM
 
@@ -189,6 +190,59 @@ theorem merging_always_completes (fuel : Nat) (vm : VM) (queue : List QItem) (ch
       scopes) needs the whole interpreter and is checked by execution (ops await / awaitf).  `_expand_when_stmt_element`
       is not mirrored (ops when / whenmix / when2 / whenf: execution + oracle only).
 -/
+
+/-! ## GroupVM ⇔ CoreVM (T2', partial): phase 1 on and-clauses / or-groups of ANY size
+
+  CoreVM (Models/CoreVM, import-only) is the whole-interpreter model: `slide`, `_advance_head_front`, `run_to_completion` over
+  the real expanded program.  Proved here over CoreVM's `slide` itself (Lemmas/GroupCoreVM.lean, Lemmas/GroupCoreVMCompose.lean):
+
+  * one-step lemmas `slideStep_goto / _wait_parks / _wait_passes / _merge_active` (closed-form result states: ONE guarded index
+    operation each), the CLAUSE SEGMENT `clause_segment_parks / _passes` (`goto end → WaitForHeads n [→ MergeHeads]`, parametric
+    in `n` and in the program) and the or-branch segment `branch_segment_merges`;
+  * their composition over all members of a clause, by induction on the clause: the two theorems below.
+
+  FULL statement that stays open (kept visible):
+      groupvm_is_corevm : for `cfg.elements = expandMatch g ++ [send marker, match never]`, every event `e` and every recorded
+        tie-break list, `CoreVM.runToCompletion` maps a state whose main-flow heads are `renderHeads d vm` to one whose heads are
+        `renderHeads d (GroupVM.stepEvent vm e choices).1`, emitting the marker iff `(GroupVM.stepEvent vm e choices).2.1`.
+  Missing for it: the FORK segment (`ForkHead` creating the heads, `_advance_head_front` moving them onto their `match`
+  elements — needs `getEventName` for the index entry), the MERGE segment (`MergeHeads` on a MERGING head: candidate list through
+  `get_child_head_uids`, `random.choice`, deletion loop) and the event loop of `runToCompletion` (matching heads through the
+  index, `_advance_head_front`'s bookkeeping around `slide`, the merging loop).  These stay tied by execution on every run: for every
+  generated `match` case the heads (position, status) of the REAL interpreter, of GroupVM and of CoreVM (`CoreVMJson.run` on the
+  real expanded program with the recorded tie-breaks) agree after every event. -/
+
+/-- **groupvm_is_corevm_partial (and-clause, phase 1).**  A flow instance of CoreVM whose heads are `others` (e.g. the INACTIVE
+    forking head; none of them parked on the wait element) followed by the member heads of one and-clause in the states `ms` that
+    `GroupVM` keeps for them; the program has, for every member, `match …; goto l` and at the end label `WaitForHeads n;
+    MergeHeads` (`ClauseShape`, `MembersShape` — the and-template of `_expand_match_element`).  Advancing in order the member heads
+    that wait on `match e` the way `_advance_head_front` does (`head.position += 1; slide`) yields exactly
+    `GroupVM.p1Members e n [] ms` — a head passes `WaitForHeads n` iff the heads parked there, itself included, are at least `n` —
+    and changes nothing else.  Any clause size, any `n`. -/
+theorem groupvm_is_corevm_partial (fuel : Nat) (s : CoreVM.VM) (f : CoreIndex.FUid) (i : CoreIndex.Inst) (x : CoreVM.InstX)
+    (cfg : CoreVM.FlowCfg) (l mu : String) (pe n e : Nat)
+    (others : List CoreVM.HCore) (us : List (CoreIndex.HUid × Nat)) (ms : List (Nat × MLoc))
+    (F : CoreVM.FlowAt s f i x cfg) (hown : x.ctxOwner = none) (C : CoreVM.ClauseShape cfg l mu pe n)
+    (S : CoreVM.MembersShape cfg l pe us)
+    (hlen : us.length = ms.length) (hnd : (others.map (·.1) ++ us.map (·.1)).Nodup)
+    (hoth : others.filter (CoreVM.liveAt (pe + 1)) = [])
+    (hv : CoreVM.hview i = others ++ CoreVM.renderU (pe + 1) us ms) :
+    ∃ s' i', CoreVM.runMembers (fuel + 3) f (CoreVM.matchingU e us ms) s = .ok () s' ∧ CoreVM.FlowAt s' f i' x cfg ∧ s'.r = s.r ∧
+      CoreVM.hview i' = others ++ CoreVM.renderU (pe + 1) us (p1Members e n [] ms) :=
+  CoreVM.and_clause_phase1 fuel s f i x cfg l mu pe n e others us ms F hown C S hlen hnd hoth hv
+
+/-- **groupvm_is_corevm_partial (or-group of single atoms, phase 1).**  The same for the branch heads of an or-group whose clauses
+    are single atoms (any number of branches): the heads that wait on `match e` end MERGING on the or-level `MergeHeads`, exactly
+    `GroupVM.p1Brs e 0 brs`. -/
+theorem groupvm_is_corevm_partial_or (fuel : Nat) (s : CoreVM.VM) (f : CoreIndex.FUid) (i : CoreIndex.Inst) (x : CoreVM.InstX)
+    (cfg : CoreVM.FlowCfg) (l mu : String) (pe e : Nat)
+    (others : List CoreVM.HCore) (us : List (CoreIndex.HUid × Nat)) (brs : List Br)
+    (F : CoreVM.FlowAt s f i x cfg) (hown : x.ctxOwner = none) (C : CoreVM.OrShape cfg l mu pe) (S : CoreVM.MembersShape cfg l pe us)
+    (hlen : us.length = brs.length) (hnm : CoreVM.noMulti brs = true) (hnd : (others.map (·.1) ++ us.map (·.1)).Nodup)
+    (hv : CoreVM.hview i = others ++ CoreVM.renderB (pe + 1) us brs) :
+    ∃ s' i', CoreVM.runMembers (fuel + 2) f (CoreVM.matchingB e us brs) s = .ok () s' ∧ CoreVM.FlowAt s' f i' x cfg ∧ s'.r = s.r ∧
+      CoreVM.hview i' = others ++ CoreVM.renderB (pe + 1) us (p1Brs e 0 brs).1 :=
+  CoreVM.or_group_phase1 fuel s f i x cfg l mu pe e others us brs F hown C S hlen hnm hnd hv
 
 /-! ## the expanded element list -/
 
@@ -410,5 +464,64 @@ example : readBackWhen [[.send 0], [.send 1]] (some [.send 99])
     = some [[[0, 1], [2]], [[3]]] := by decide
 -- the hypothesis `hne` excludes exactly groups like `and []` (not expressible in Colang source)
 example : eval (fun _ => false) (.and []) = true := by decide
+
+
+/-! concrete CoreVM states for the non-vacuity examples: `match E0() and E1()` resp. `match E0() or E1()` as the interpreter sees them
+    (templates of `_expand_match_element` at positions 1 … 16, one element before), after the root head `h0` has forked `h1`, `h2` -/
+def exSpec (n : String) : CoreVM.Spec := { name := some n, specType := .event, args := [], ref := none, members := none, varName := none }
+def exCfgAnd : CoreVM.FlowCfg :=
+  { id := "main",
+    elements := #[.other, .catchFail (some "f"), .fork "u" ["l0", "l1"],
+      .label "l0", .matchOp (exSpec "E0") false, .goto (.lit (.bool true)) "e",
+      .label "l1", .matchOp (exSpec "E1") false, .goto (.lit (.bool true)) "e",
+      .label "f", .merge "u", .catchFail none, .abort,
+      .label "e", .waitHeads 2, .merge "u", .catchFail none],
+    labels := [("l0", 3), ("l1", 6), ("f", 9), ("e", 13)],
+    params := [], returnMembers := [], loopId := none, loopPriority := 0, metaTags := [] }
+def exCfgOr : CoreVM.FlowCfg :=
+  { exCfgAnd with
+    elements := #[.other, .catchFail (some "f"), .fork "u" ["l0", "l1"],
+      .label "l0", .matchOp (exSpec "E0") false, .goto (.lit (.bool true)) "e",
+      .label "l1", .matchOp (exSpec "E1") false, .goto (.lit (.bool true)) "e",
+      .label "f", .waitHeads 2, .merge "u", .catchFail none, .abort,
+      .label "e", .merge "u", .catchFail none],
+    labels := [("l0", 3), ("l1", 6), ("f", 9), ("e", 14)] }
+
+def exIxs : CoreVM.IxS :=
+  ((((({} : CoreVM.IxS).apply (.addInst "m" "h0" none) (by decide)).apply (.setPos "m" "h0" 2 none) (by decide)).apply
+    (.setStatus "m" "h0" .inactive none) (by decide)).apply (.fork "m" "h1" none 4 none) (by decide)).apply
+    (.fork "m" "h2" none 7 none) (by decide)
+
+def exX : CoreVM.InstX := { flowId := "main", loopId := none, hierPos := "" }
+def exVM (cfg : CoreVM.FlowCfg) : CoreVM.VM := { ixs := exIxs, r := { prog := { flows := [cfg] }, fx := [("m", exX)] } }
+def exInst : CoreIndex.Inst := { uid := "m", status := .waiting, heads := [
+  { uid := "h0", pos := 2, status := .inactive, elem := none }, { uid := "h1", pos := 4, status := .active, elem := none },
+  { uid := "h2", pos := 7, status := .active, elem := none }] }
+
+-- non-vacuity of `groupvm_is_corevm_partial`: both member heads of `match E0() and E1()`, event E0
+example : ∃ s' i', CoreVM.runMembers 4 "m" (CoreVM.matchingU 0 [("h1", 4), ("h2", 7)] [(0, .atMatch), (1, .atMatch)]) (exVM exCfgAnd) = .ok () s' ∧
+    CoreVM.FlowAt s' "m" i' exX exCfgAnd ∧ s'.r = (exVM exCfgAnd).r ∧
+    CoreVM.hview i' = [("h0", 2, .inactive)] ++ CoreVM.renderU 14 [("h1", 4), ("h2", 7)] (p1Members 0 2 [] [(0, .atMatch), (1, .atMatch)]) :=
+  groupvm_is_corevm_partial 1 (exVM exCfgAnd) "m" exInst exX exCfgAnd "e" "u" 13 2 0 [("h0", 2, .inactive)] [("h1", 4), ("h2", 7)]
+    [(0, .atMatch), (1, .atMatch)]
+    { hi := rfl, hx := rfl, hc := rfl } rfl
+    { hl := rfl, hsize := by decide, hw := rfl, hm := rfl }
+    (by intro u hu; simp at hu; rcases hu with rfl | rfl <;> exact ⟨rfl, by decide⟩)
+    rfl (by decide) rfl rfl
+
+
+-- non-vacuity of `groupvm_is_corevm_partial_or`: both branch heads of `match E0() or E1()`, event E1
+example : ∃ s' i', CoreVM.runMembers 3 "m" (CoreVM.matchingB 1 [("h1", 4), ("h2", 7)] [.single 0, .single 1]) (exVM exCfgOr) = .ok () s' ∧
+    CoreVM.FlowAt s' "m" i' exX exCfgOr ∧ s'.r = (exVM exCfgOr).r ∧
+    CoreVM.hview i' = [("h0", 2, .inactive)] ++ CoreVM.renderB 15 [("h1", 4), ("h2", 7)] (p1Brs 1 0 [.single 0, .single 1]).1 :=
+  groupvm_is_corevm_partial_or 1 (exVM exCfgOr) "m" exInst exX exCfgOr "e" "u" 14 1 [("h0", 2, .inactive)] [("h1", 4), ("h2", 7)]
+    [.single 0, .single 1]
+    { hi := rfl, hx := rfl, hc := rfl } rfl
+    { hl := rfl, hsize := by decide, hm := rfl }
+    (by intro u hu; simp at hu; rcases hu with rfl | rfl <;> exact ⟨rfl, by decide⟩)
+    rfl rfl (by decide) rfl
+-- test: what the theorem's conclusion says on the and-example: E0 arrives, h1 parks on WaitForHeads (position 14), h2 stays
+example : CoreVM.renderU 14 [("h1", 4), ("h2", 7)] (p1Members 0 2 [] [(0, .atMatch), (1, .atMatch)])
+    = [("h1", 14, .active), ("h2", 7, .active)] := by decide
 
 end NemoVerif.C07
